@@ -72,7 +72,7 @@ ContClauses ==
                                  [] cls \in {"window_clean", "window_all", "none", "range"} ->
                                        SelSet(ret) = DocWindowSet(C.files["eig"], A) /\ Ascending(ret)
                                  [] OTHER -> TRUE,
-        identity     |-> (ok /\ ret = Ident(NbNow(C))) => FilesSameButBook(after, C.files),
+        identity     |-> (ok /\ sound /\ ret = Ident(NbNow(C))) => FilesSameButBook(after, C.files),
         info_model   |-> ((m.err = "") = ok) /\ (ok => m.ret = ret) /\ FilesSameButBook(m.cont.files, after) ]
 
 (* ---- a file added after the selections *)
